@@ -15,11 +15,12 @@ def jobs(tier):
       Job("plan-n5-dag", M, "h_plan", dict(C19_N=5, C19_DAG=1, C19_ALL_DIRECT=1), shards=31, timeout=t, env=RE,
           note="five requested modules, every acyclic import structure"),
       Job("escape-model-validation", M, "h_escape_model", {}, shards=1, timeout=t),
-      Job("escape", M, "h_escape", dict(C19_STRLEN=4 if q else 6), shards=16 if q else 61, timeout=t),
+      Job("escape", M, "h_escape", dict(C19_STRLEN=4 if q else 5), shards=16 if q else 61, timeout=t),
       Job("imports-line", M, "h_imports_line", dict(C19_ILEN=3 if q else 5), shards=1, timeout=t),
   ]
   if not q:
-    out.append(Job("plan-n4", M, "h_plan", dict(C19_N=4, C19_NKINDS=2), shards=251, timeout=t, env=RE))
+    out.append(Job("plan-n4-all-requested", M, "h_plan", dict(C19_N=4, C19_ALL_DIRECT=1), shards=127, timeout=t, env=RE))
+    out.append(Job("plan-n4-dag-3kinds", M, "h_plan", dict(C19_N=4, C19_DAG=1, C19_NKINDS=3), shards=127, timeout=t, env=RE))
   return out
 
 
